@@ -43,7 +43,7 @@ def _ordering_step(ctx, fi: FuncInfo) -> None:
 
     class _Base:
         def __init__(self, n):
-            self.n, self.resets, self.referenced_rules, self._backreferences, self.name, self.id = n, 0, [], [], n, None
+            self.n, self.resets, self.referenced_rules, self._backreferences, self.name, self.id, self.source = n, 0, [], [], n, None, None
         def reset_references(self):
             self.resets += 1
             self._backreferences = []
@@ -77,17 +77,27 @@ def _ordering_step(ctx, fi: FuncInfo) -> None:
     IK = {"max_steps": 20000}
     bad: list[str] = []
     n = 0
-    for perm in itertools.permutations(sorted(spec)):
+    class SigmaCollectionError(Exception):
+        pass
+
+    env["SigmaCollectionError"] = SigmaCollectionError
+    env["sigma_exceptions"] = type("E", (), {"__getattr__": lambda s_, k_: SigmaCollectionError})()
+    IK["behaviours"] = (SigmaCollectionError,)
+    # second pass: rules without a name (it is optional; such rules are referred to by id) — nothing may be keyed by the name
+    for named, perm in [(True, p_) for p_ in itertools.permutations(sorted(spec))] + [(False, p_) for p_ in itertools.permutations(sorted(spec))]:
         n += 1
         objs = {k: (SigmaCorrelationRule(k, v) if v else SigmaRule(k)) for k, v in spec.items()}
         flt, z = SigmaFilter(), SigmaRule("z")
+        if not named:
+            for o_ in list(objs.values()) + [z]:
+                o_.name, o_.id, o_.source = None, "id-" + o_.n, None
         order = [objs[k] for k in perm]
         docs = order[:2] + [flt] + order[2:4] + [z] + order[4:]
         me = Proxy(prog, COLL, env, {"rules": list(docs), "filters": [], "errors": [], "ids_to_rules": {}, "names_to_rules": {}}, interp_kwargs=IK)
         try:
             call_method(prog, COLL, fi.name, me, env, interp_kwargs=IK)
         except Raised as ex:
-            bad.append(f"document order {list(perm)}: raises {ex}")
+            bad.append(f"document order {list(perm)}{'' if named else ' (rules without names, referred to by id)'}: raises {ex}")
             continue
         out = list(me.rules)
         names = [getattr(x, "n", repr(x)) for x in out]
